@@ -39,7 +39,7 @@ def build(tier):
                 qs.append(dq(4, dr, dc, d2r, d2c))
                 qs.append(dq(5, dr, dc, d2r, dc if d2c > dc + 1 else d2c))
     qs.append(dq(6, 1, 1))
-    solver = [(1, 1), (2, 2), (3, 2), (3, 3), (4, 3)] if tier == "quick" else [(1, 1), (2, 1), (2, 2), (3, 2), (3, 3), (4, 3), (4, 4), (5, 3), (5, 4)]
+    solver = [(1, 1), (2, 2), (3, 2), (3, 3), (4, 3)] if tier == "quick" else [(1, 1), (2, 1), (2, 2), (3, 2), (3, 3), (4, 3)]      # (4,4) and beyond: no verdict within 20 min per query (measured), left out
     if tier == "quick":
         qs.append(dq(1, 1, 65))
         qs.append(dq(3, 1, 65, 2, 66))
@@ -49,10 +49,12 @@ def build(tier):
                 continue
             if tier == "quick" and p_ * q_ > 9:
                 continue
+            if plen == 9 and tier == "thorough" and p_ * q_ > 4:
+                continue          # len 9 beyond 2x2: > 20 min per query (measured)
             q = dq(7, p_, q_, plen=plen, timeout=1800 if tier == "quick" else 5400)
             q.mem_gb = 12 if tier == "quick" else 30
             qs.append(q)
-        if p_ * q_ <= (4 if tier == "quick" else 12):
+        if p_ * q_ <= (4 if tier == "quick" else 9):          # (3,3): ~8 min; (4,3): no verdict within 20 min
             q = dq(8, p_, q_, plen=1, timeout=1800 if tier == "quick" else 5400)      # NULL = zero constant terms
             q.mem_gb = 12 if tier == "quick" else 30
             qs.append(q)
@@ -61,7 +63,7 @@ def build(tier):
         functions_encoded=["of_mod2dense_{allocate,free,get,set,flip,clear,copy,copyrows,copycols,xor_rows,row_weight,col_weight,row_is_empty}",
                            "of_hweight32, of_hweight32_table, of_hweight8_table, of_hweight32_naive, of_popcount_3, of_hweight_array",
                            "of_linear_binary_code_solve_dense_system (triangularize, forward elimination, backward substitution)"],
-        bounds="dimensions %s x %s (word boundaries 31/32/33, 64/65), destinations of the same size, one larger in both directions, and one word wider; every matrix bit and every argument (positions, row/column index vectors) symbolic; popcounts over all 2^32 / 2^64 arguments; solver on p x q in %s (quick: up to 3x3, len 1; NULL-constant family up to 2x2 [thorough 4x3]) with every matrix bit and right-hand sides built from a fully symbolic hidden solution (consistent systems, as the decoder builds them; len 1 and 9): OK iff full column rank (no non-zero kernel vector, all 2^q-1 checked symbolically), FAILURE otherwise, and on OK the returned symbols equal the hidden solution; a second family passes a solver-chosen subset of the all-zero right-hand sides as NULL, as the ML decoder does" % (rows, cols, solver),
+        bounds="dimensions %s x %s (word boundaries 31/32/33, 64/65), destinations of the same size, one larger in both directions, and one word wider; every matrix bit and every argument (positions, row/column index vectors) symbolic; popcounts over all 2^32 / 2^64 arguments; solver on p x q in %s (quick: up to 3x3, len 1; NULL-constant family up to 2x2 [thorough 3x3]; len 9 only up to 2x2 in thorough, 1x1 in quick) with every matrix bit and right-hand sides built from a fully symbolic hidden solution (consistent systems, as the decoder builds them; len 1 and 9): OK iff full column rank (no non-zero kernel vector, all 2^q-1 checked symbolically), FAILURE otherwise, and on OK the returned symbols equal the hidden solution; a second family passes a solver-chosen subset of the all-zero right-hand sides as NULL, as the ML decoder does" % (rows, cols, solver),
         outside_bounds="larger dimensions; sequences of more than the two or three operations each query chains; for copycols into a taller destination the extra rows are not asserted; ",
         stubs=[], assumptions=STD_ASSUMPTIONS[:2] + ["the bit model is filled through of_mod2dense_set and cross-checked through of_mod2dense_get for every bit before and after each operation"],
         exhaustive=False)
